@@ -109,4 +109,20 @@ class C01(Check):
         return not any(l.startswith(("SPECFAIL", "MISMATCH", "BADLINE")) for l in out)
 
 
+
+# Behaviour-preserving rewrites the check was run against (patches under corpus/C01|C02/negative_controls/; documentation only).
+NEGATIVE_CONTROLS = [
+    "nc1_state_machine_refactor (corpus/C01): ProcessCheckResult's soft/hard branch restructured (problem branch first, merged "
+    "'first soft'/'next retry' cases, `max <= attempt`), attempt/stateChange/hardChange as single const expressions, recovery as an "
+    "assignment, reordered independent statements, log line reworded and written before OnStateChange",
+    "nc2_notification_guard_spellings (corpus/C02): send/suppress decision as one expression with De Morgan'd guards, merged "
+    "`!is_flapping && send && !IsPaused()`, pending test `!= 0`, flapping cancel-out as two bit tests, remembered state via a local",
+    "nc3_fire_suppressed_refactor (corpus/C02): FireSuppressedNotifications with the early returns merged in another order, the two "
+    "suppression reasons tested in a loop, step-wise `mayProcess`, equality instead of inequality for the state comparison, bits "
+    "cleared before the notification is requested, flapping loop with continue-guards",
+    "nc4_reason_helpers_and_texts (corpus/C02): NotificationReasonSuppressed as if-chain instead of switch (same evaluation order), "
+    "IsLikelyToBeCheckedSoon's clamp via std::min/std::max, stale-result test with swapped operands and another log text",
+    "(DESIGN §5) neg_control_1/2: GetChildren() hoisted and aliased in ProcessCheckResult, WhileExpression's sandbox message reworded",
+]
+
 CHECK = C01()
